@@ -60,7 +60,7 @@ func (c05) Cases(tier string, seed uint64) []core.Case {
 				n = r.Range(1000, 140000)
 			}
 		}
-		cfg := core.Config{IndexType: core.IndexTypes[j%3], ShardNum: []int{16, 1, 64}[(j/3)%3], FileIO: byte((j / 2) % 2), DataFileSize: []int64{256 << 20, 256 << 20, 1 << 20}[(j/len(counts))%3]}
+		cfg := core.Config{IndexType: core.IndexTypes[j%3], ShardNum: []int{16, 1, 64}[(j/3)%3], FileIO: byte((j / 2) % 2), DataFileSize: []int64{256 << 20, 64 << 10, 1 << 20, 8 << 10}[j%4]}
 		out = append(out, core.Case{Index: len(out), ID: fmt.Sprintf("c05-large-%04d", j), Seed: r.U64(), Data: seqCase{Cfg: cfg, NOps: -n}})
 	}
 	return out
@@ -93,6 +93,7 @@ func runLargeBatch(c core.Case, sc seqCase, w *core.Worker) core.Result {
 		b := s.DB.NewBatch(kv.BatchOptions{})
 		staged := 0
 		seen := map[string]bool{}
+		var recent [][]byte
 		stage := func(k, v []byte, del bool) {
 			var err error
 			if del {
@@ -119,8 +120,34 @@ func runLargeBatch(c core.Case, sc seqCase, w *core.Worker) core.Result {
 				if _, ok := s.M.Get(k); ok || seen[string(k)] {
 					stage(k, nil, true)
 				}
+			case i%17 == 5 && len(recent) > 0:
+				// come back to a key staged a little earlier in this batch (possibly before
+				// the last automatic flush): replace it, delete it, or read it
+				k := recent[r.Intn(len(recent))]
+				switch r.Intn(3) {
+				case 0:
+					stage(k, core.FillValue(r.U64()|1, r.Range(0, 9)), false)
+				case 1:
+					if _, ok := s.M.Get(k); ok {
+						stage(k, nil, true)
+					}
+				default:
+					want, ok := s.M.Get(k)
+					got, err := b.Get(k)
+					res.Add("batch_gets", 1)
+					if ok != (err == nil) || (ok && !bytes.Equal(got, want)) {
+						fail(fmt.Sprintf("Batch.Get(%s) of a key staged earlier in this batch: len %d err=%v, overlay model: present=%v len %d", k, len(got), err, ok, len(want)))
+					}
+				}
+				res.Add("revisits_of_staged_keys", 1)
 			default:
-				stage([]byte(fmt.Sprintf("b%07x", core.Mix(uint64(i), c.Seed)>>36)), core.FillValue(r.U64()|1, r.Range(0, 6)), false)
+				k := []byte(fmt.Sprintf("b%07x", core.Mix(uint64(i), c.Seed)>>36))
+				stage(k, core.FillValue(r.U64()|1, r.Range(0, 6)), false)
+				if len(recent) < 300 {
+					recent = append(recent, k)
+				} else {
+					recent[i%300] = k
+				}
 			}
 			if i%4001 == 4000 && !s.Dead {
 				// read-your-writes in the middle of staging
